@@ -133,6 +133,7 @@ func genOp(t *rapid.T, cfg C07Config) Op {
 	case "pay":
 		op.Sizes = genSizes(t, 12)
 		op.V2 = v2Likely
+		op.B = rapid.IntRange(0, 1).Draw(t, "pay-fee") // 1: pays a miner fee (the manager re-pools only fee-paying transactions of a reverted block)
 	case "fund":
 		// zero, 1 H, fraction, exactly spendable, +1, exactly spendable+unconfirmed, +1, value of one utxo, fraction of the largest
 		op.A = rapid.SampledFrom([]int{0, 1, 1, 2, 2, 2, 2, 3, 3, 4, 5, 5, 6, 7, 7, 8, 8, 8, 8}).Draw(t, "amount-sel")
@@ -155,6 +156,7 @@ func genOp(t *rapid.T, cfg C07Config) Op {
 		op.A = rapid.IntRange(0, 5).Draw(t, "amount-sel")
 		op.F = rapid.IntRange(0, 5).Draw(t, "rank")
 		op.B = rapid.IntRange(0, 2).Draw(t, "fee-sel")
+		op.Now = rapid.IntRange(0, 2).Draw(t, "submit-now") == 0
 	case "split":
 		op.N = rapid.IntRange(2, 13).Draw(t, "parts")
 		op.A = rapid.IntRange(0, 4).Draw(t, "min-sel")
@@ -165,6 +167,8 @@ func genOp(t *rapid.T, cfg C07Config) Op {
 		op.Lag = rapid.IntRange(0, 3).Draw(t, "lag") == 0
 	case "restart":
 		op.B = rapid.IntRange(0, 1).Draw(t, "fresh-manager")
+	case "sync":
+		op.N = rapid.SampledFrom([]int{0, 0, 1, 2, 3}).Draw(t, "sync-chunk") // 0: up to the tip
 	}
 	return op
 }
@@ -183,7 +187,11 @@ func genC07(t *rapid.T) C07Case {
 			c.Ops = append(c.Ops, Op{K: "mine", N: 1, B: 3})
 		}
 	}
-	n := rapid.IntRange(1, 25-len(c.Ops)).Draw(t, "n-ops")
+	maxOps := 25
+	if kit.Thorough() {
+		maxOps = 60
+	}
+	n := rapid.IntRange(1, maxOps-len(c.Ops)).Draw(t, "n-ops")
 	for i := 0; i < n; i++ {
 		c.Ops = append(c.Ops, genOp(t, c.Config))
 	}
@@ -418,6 +426,29 @@ func (wd *world) syncOthers() error {
 func (wd *world) syncWallet() error {
 	if err := syncOne(wd.cm, wd.ws, wd.w); err != nil {
 		return fmt.Errorf("INFRA: wallet sync: %w", err)
+	}
+	return nil
+}
+
+// syncWalletPartial feeds the wallet one chunk of at most n updates (it may end
+// in the middle of a reorg path, also on a revert).
+func (wd *world) syncWalletPartial(n int) error {
+	tip, err := wd.ws.Tip()
+	if err != nil {
+		return err
+	}
+	reverted, applied, err := wd.cm.UpdatesSince(tip, n)
+	if err != nil {
+		return fmt.Errorf("INFRA: UpdatesSince(%v, %d): %w", tip, n, err)
+	}
+	if err := wd.ws.UpdateChainState(func(tx wallet.UpdateTx) error {
+		return wd.w.UpdateChainState(tx, reverted, applied)
+	}); err != nil {
+		return fmt.Errorf("INFRA: wallet sync: %w", err)
+	}
+	wd.cs.Class("sync=partial-chunk")
+	if len(reverted) > 0 && len(applied) == 0 {
+		wd.cs.Class("sync=chunk-ends-on-a-revert")
 	}
 	return nil
 }
@@ -1071,8 +1102,14 @@ func (wd *world) opPay(op Op) error {
 	if !v2 && !wd.v1Allowed() {
 		v2 = true
 	}
+	var payFee types.Currency
+	if op.B%2 == 1 {
+		payFee = types.NewCurrency64(1000)
+		total = total.Add(payFee)
+		wd.cs.Class("pay=with-fee")
+	}
 	if v2 {
-		txn := types.V2Transaction{SiacoinOutputs: outs}
+		txn := types.V2Transaction{SiacoinOutputs: outs, MinerFee: payFee}
 		basis, toSign, err := wd.p.FundV2Transaction(&txn, total, false)
 		if err != nil {
 			wd.cs.Class("pay=skipped-payer-broke")
@@ -1086,6 +1123,9 @@ func (wd *world) opPay(op Op) error {
 		wd.cs.Class("pay=v2")
 	} else {
 		txn := types.Transaction{SiacoinOutputs: outs}
+		if !payFee.IsZero() {
+			txn.MinerFees = []types.Currency{payFee}
+		}
 		toSign, err := wd.p.FundTransaction(&txn, total, false)
 		if err != nil {
 			wd.cs.Class("pay=skipped-payer-broke")
@@ -1887,6 +1927,36 @@ func (wd *world) opRestart(op Op) error {
 	if err := wd.openWallets(); err != nil {
 		return fmt.Errorf("INFRA: reopen wallets: %w", err)
 	}
+	// "a restart that re-loads broadcast sets into the pool": every stored set
+	// the pool is able to take must be in the pool once the wallet is constructed
+	if sets, _ := wd.ws.BroadcastedSets(); op.B%2 == 1 {
+		for si, set := range sets {
+			missing := false
+			for _, txn := range set.Transactions {
+				if _, ok := wd.cm.V2PoolTransaction(txn.ID()); !ok {
+					missing = true
+				}
+			}
+			if !missing {
+				wd.cs.Class("restart=node:broadcast-set-back-in-pool")
+				continue
+			}
+			if known, err := wd.cm.AddV2PoolTransactions(set.Basis, set.Transactions); err == nil && !known {
+				// the pool took it now, so it would have taken it from the wallet
+				still := false
+				for _, txn := range set.Transactions {
+					if _, ok := wd.cm.V2PoolTransaction(txn.ID()); ok {
+						still = true
+					}
+				}
+				if still {
+					return fmt.Errorf("restart: broadcast set %d (basis %v, %d transactions) was not re-loaded into the pool by NewSingleAddressWallet although the pool accepts it", si, set.Basis, len(set.Transactions))
+				}
+			} else {
+				wd.cs.Class("restart=node:broadcast-set-no-longer-valid")
+			}
+		}
+	}
 	// reservations live in memory only
 	wd.res = map[scID]resv{}
 	if wd.lagging() {
@@ -1945,7 +2015,12 @@ func runC07(c C07Case, cs *kit.CaseStats) error {
 		case "submit":
 			err = wd.opSubmit(op, i)
 		case "redist":
+			nreq := len(wd.reqs)
 			err = wd.opRedistribute(op, i)
+			if err == nil && op.Now && len(wd.reqs) == nreq+1 {
+				cs.Class("redistribute=submitted-at-once")
+				err = wd.opSubmit(Op{K: "submit", N: len(wd.outstanding(true)) - 1, B: op.F}, i)
+			}
 		case "split":
 			err = wd.opSplit(op, i)
 		case "reorg":
@@ -1960,7 +2035,11 @@ func runC07(c C07Case, cs *kit.CaseStats) error {
 			if wd.lagging() {
 				cs.Class("sync=wallet-catches-up")
 			}
-			err = wd.syncWallet()
+			if op.N > 0 && wd.lagging() {
+				err = wd.syncWalletPartial(op.N)
+			} else {
+				err = wd.syncWallet()
+			}
 		default:
 			continue
 		}
